@@ -68,7 +68,7 @@ type missGate struct {
 	overwrites atomic.Int64
 }
 
-var lazyNames = map[string]bool{"global": true, "limit": true, "name": true, "deep": true, "x": true, "weight": true, "role": true, "note": true}
+var lazyNames = map[string]bool{"peer": true, "tag": true, "global": true, "limit": true, "name": true, "deep": true, "x": true, "weight": true, "role": true, "note": true}
 
 func (g *missGate) yield(point, id string) {
 	if !g.on.Load() {
@@ -78,7 +78,7 @@ func (g *missGate) yield(point, id string) {
 	case "tree.child.overwrite":
 		g.overwrites.Add(1)
 	case "tree.child.miss":
-		if !lazyNames[id] {
+		if !lazyNames[id] && !strings.HasPrefix(id, "n0") {
 			return
 		}
 		g.mu.Lock()
@@ -119,6 +119,16 @@ func has(xs []string, x string) bool {
 	return false
 }
 
+func without(xs []string, drop ...string) []string {
+	var out []string
+	for _, x := range xs {
+		if !has(drop, x) {
+			out = append(out, x)
+		}
+	}
+	return out
+}
+
 func sv(s string) *sdcpb.TypedValue {
 	return &sdcpb.TypedValue{Value: &sdcpb.TypedValue_StringVal{StringVal: s}}
 }
@@ -143,6 +153,10 @@ func (sc *ConcScenario) updates(from, to int) []*sdcpb.Update {
 		add(concPath(id(i), "id"), sv(id(i)))
 		if has(sc.Feats, "peer") {
 			peer := id((i + 1) % sc.N)
+			if has(sc.Feats, "peerlast") {
+				// everybody refers to the last entry (which a replace intent does not keep: it is loaded on demand by all validators)
+				peer = id(sc.N - 1)
+			}
 			if has(sc.Defects, "dangling_peer") && i%7 == 3 {
 				peer = "nobody"
 			}
@@ -178,6 +192,17 @@ func (sc *ConcScenario) updates(from, to int) []*sdcpb.Update {
 			if !(has(sc.Defects, "missing_mandatory") && i%4 == 2) {
 				add(concPath(id(i), "opt", "must-have"), sv("m"))
 			}
+		}
+		if has(sc.Feats, "tag") {
+			add(concPath(id(i), "tag"), sv("x"))
+		}
+		if has(sc.Feats, "tref") {
+			// leafref through a key predicate on a sibling: /conc/node[id=current()/../peer]/tag
+			v := "x"
+			if has(sc.Defects, "dangling_tref") && i%5 == 2 {
+				v = "nosuchtag"
+			}
+			add(concPath(id(i), "tref"), sv(v))
 		}
 		if has(sc.Feats, "tags") {
 			tags := []*sdcpb.TypedValue{sv("t1"), sv("t2")}
@@ -237,7 +262,7 @@ func (r *ConcRunner) Run(sc *ConcScenario) error {
 			return nil, err
 		}
 		if sc.Replace {
-			base := &ConcScenario{N: sc.N, Feats: []string{"peer", "tags", "opt", "rcheck"}}
+			base := &ConcScenario{N: sc.N, Feats: []string{"peer", "peerlast", "tags", "opt", "rcheck", "tag", "tref"}}
 			req := &sdcpb.TransactionIntent{Intent: "A", Priority: 10, Update: base.updates(0, sc.N)}
 			ti, err := ds.D.SdcpbTransactionIntentToInternalTI(ctx, req)
 			if err != nil {
@@ -288,7 +313,8 @@ func (r *ConcRunner) Run(sc *ConcScenario) error {
 		if sc.Replace {
 			// keep three quarters of the entries (their peers partly exist on the device only) and make sure the
 			// replace is refused, so that the state stays the same for every run
-			req = &sdcpb.TransactionIntent{Intent: "replace", Priority: 10, Update: sc.updates(0, sc.N*3/4)}
+			kept := &ConcScenario{N: sc.N, Feats: append([]string{"tref"}, without(sc.Feats, "peer", "tag")...), Defects: sc.Defects}
+			req = &sdcpb.TransactionIntent{Intent: "replace", Priority: 10, Update: kept.updates(0, sc.N*3/4)}
 			req.Update = append(req.Update, &sdcpb.Update{Path: concPath("n000", "weight"), Value: sv("11")})
 		}
 		ti, err := ds.D.SdcpbTransactionIntentToInternalTI(cctx, req)
